@@ -16,7 +16,7 @@ impl Sha512 {
     #[verifier::external_body]
     pub fn finalize(self) -> (r: Sha512Out) ensures r.b@ == spec_sha512(self.st@) { unimplemented!() }
 }
-impl VfSliceable<u8> for Sha512Out { open spec fn sl_view(&self) -> Seq<u8> { self.b@ } }
+impl VfSliceable<u8> for Sha512Out { type Out = [u8]; open spec fn sl_view(&self) -> Seq<u8> { self.b@ } open spec fn cut_ok(&self, a: int, b: int) -> bool { true } }
 pub struct StaticSecret { pub k: [u8; 32] }
 pub struct Base32Data { pub d: Ghost<Seq<u8>> }
 pub struct XBytes { pub b: [u8; 32] }
